@@ -75,8 +75,19 @@ def snap_layer(l):
 
 
 def snap_circuit(c):
-    return ("circuit", int(c.N), tuple(snap_layer(l) for l in c.layers_forward()),
-            _map_val(c.forward_map), _map_val(c.backward_map))
+    fw = []
+    for i, l in enumerate(c.layers_forward()):
+        if i > 64:
+            break
+        fw.append(l)
+    bw = []
+    for i, l in enumerate(c.layers_backward()):
+        if i > 64:
+            break
+        bw.append(l)
+    # the backward walk is part of the value: backward()/povm()/repr() use it
+    return ("circuit", int(c.N), tuple(snap_layer(l) for l in fw),
+            _map_val(c.forward_map), _map_val(c.backward_map), tuple(snap_layer(l) for l in bw))
 
 
 def snap(o, kind):
@@ -112,9 +123,11 @@ def unchanged(before, after, kind):
             return False
         return all(gate_unchanged(x, y) for x, y in zip(before[1], after[1]))
     if kind == "circuit":
-        if before[1] != after[1] or len(before[2]) != len(after[2]) or before[3:] != after[3:]:
+        if before[1] != after[1] or len(before[2]) != len(after[2]) or before[3:5] != after[3:5] \
+                or len(before[5]) != len(after[5]):
             return False
-        return all(unchanged(x, y, "layer") for x, y in zip(before[2], after[2]))
+        return all(unchanged(x, y, "layer") for x, y in zip(before[2], after[2])) and \
+            all(unchanged(x, y, "layer") for x, y in zip(before[5], after[5]))
     return before == after
 
 
@@ -164,8 +177,16 @@ def subobjects(o, kind):
         return out + [m for m in (o.forward_map, o.backward_map) if m is not None]
     if kind == "circuit":
         out = [o]
-        for l in o.layers_forward():
-            out += subobjects(l, "layer")
+        seen = set()
+        # everything reachable through the doubly linked layer chain, in both directions
+        for walk in (o.layers_forward(), o.layers_backward()):
+            for i, l in enumerate(walk):
+                if i > 64:
+                    break
+                for x in (l, getattr(l, "prev_layer", None), getattr(l, "next_layer", None)):
+                    if x is not None and id(x) not in seen and hasattr(x, "gates"):
+                        seen.add(id(x))
+                        out += subobjects(x, "layer")
         return out + [m for m in (o.forward_map, o.backward_map) if m is not None]
     return [o]
 
